@@ -94,3 +94,64 @@ func Valid(p string, s Shape) *pb.QuoteV4 {
 		ExtraBytes: s.Extra,
 	}
 }
+
+func afield(name string, max int) []byte {
+	n := vp.IntRange(name+"_len", 0, max)
+	return vp.Bytes(name, n)
+}
+
+// Arbitrary returns a structurally arbitrary message: sub-message number
+// nilWhich (1..8) is absent (0: all present), every bytes field has a symbolic
+// length in 0..max and symbolic content, every integer is unconstrained, and
+// there are nRtmrs RTMR entries.
+func Arbitrary(p string, nilWhich, nRtmrs, max int) *pb.QuoteV4 {
+	quote := &pb.QuoteV4{SignedDataSize: vp.U32(p + "signeddatasize"), ExtraBytes: afield(p+"extra", max)}
+	if nilWhich != 1 {
+		quote.Header = &pb.Header{
+			Version: vp.U32(p + "version"), AttestationKeyType: vp.U32(p + "akt"), TeeType: vp.U32(p + "teetype"),
+			QeSvn: afield(p+"qesvn", max), PceSvn: afield(p+"pcesvn", max), QeVendorId: afield(p+"qevendor", max), UserData: afield(p+"userdata", max),
+		}
+	}
+	if nilWhich != 2 {
+		b := &pb.TDQuoteBody{
+			TeeTcbSvn: afield(p+"teetcbsvn", max), MrSeam: afield(p+"mrseam", max), MrSignerSeam: afield(p+"mrsignerseam", max),
+			SeamAttributes: afield(p+"seamattr", max), TdAttributes: afield(p+"tdattr", max), Xfam: afield(p+"xfam", max),
+			MrTd: afield(p+"mrtd", max), MrConfigId: afield(p+"mrconfigid", max), MrOwner: afield(p+"mrowner", max),
+			MrOwnerConfig: afield(p+"mrownerconfig", max), ReportData: afield(p+"reportdata", max),
+		}
+		for i := 0; i < nRtmrs; i++ {
+			b.Rtmrs = append(b.Rtmrs, afield(p+"rtmr"+string(rune('0'+i)), max))
+		}
+		quote.TdQuoteBody = b
+	}
+	if nilWhich == 3 {
+		return quote
+	}
+	sd := &pb.Ecdsa256BitQuoteV4AuthData{Signature: afield(p+"sig", max), EcdsaAttestationKey: afield(p+"attkey", max)}
+	quote.SignedData = sd
+	if nilWhich == 4 {
+		return quote
+	}
+	cd := &pb.CertificationData{CertificateDataType: vp.U32(p + "certtype"), Size: vp.U32(p + "certsize")}
+	sd.CertificationData = cd
+	if nilWhich == 5 {
+		return quote
+	}
+	qr := &pb.QEReportCertificationData{QeReportSignature: afield(p+"qe_sig", max)}
+	cd.QeReportCertificationData = qr
+	if nilWhich != 6 {
+		qr.QeReport = &pb.EnclaveReport{
+			CpuSvn: afield(p+"qe_cpusvn", max), MiscSelect: vp.U32(p + "qe_miscselect"), Reserved1: afield(p+"qe_res1", max),
+			Attributes: afield(p+"qe_attr", max), MrEnclave: afield(p+"qe_mrenclave", max), Reserved2: afield(p+"qe_res2", max),
+			MrSigner: afield(p+"qe_mrsigner", max), Reserved3: afield(p+"qe_res3", max), IsvProdId: vp.U32(p + "qe_isvprodid"),
+			IsvSvn: vp.U32(p + "qe_isvsvn"), Reserved4: afield(p+"qe_res4", max), ReportData: afield(p+"qe_reportdata", max),
+		}
+	}
+	if nilWhich != 7 {
+		qr.QeAuthData = &pb.QeAuthData{ParsedDataSize: vp.U32(p + "authsize"), Data: afield(p+"qe_auth", max)}
+	}
+	if nilWhich != 8 {
+		qr.PckCertificateChainData = &pb.PCKCertificateChainData{CertificateDataType: vp.U32(p + "pcktype"), Size: vp.U32(p + "pcksize"), PckCertChain: afield(p+"chain", max)}
+	}
+	return quote
+}
